@@ -242,6 +242,7 @@ def clone_as_function(
     subscript: Optional[str] = None,
     **assumptions: Any,
 ) -> Function:
+    assumptions = assumptions or source.assumptions0
     display_symbol = display_symbol or source.display_name
     display_latex = display_latex or source.display_latex
 
